@@ -551,6 +551,28 @@ func checkC09(c *core.Ctx) {
 		c.Nontrivial("tty|" + name + tc.stdin)
 	})
 
+	// single edge cases that earlier rounds or readers of the code pointed at: whatever crd decides, in proper form
+	rest := "- values: [1]\n"
+	noDegree := "- chord: {name: m7}\n  values: [1]\n"
+	edges := []struct {
+		args  []string
+		stdin string
+	}{
+		{[]string{"write", "event", "--track", "32768"}, rest}, {[]string{"write", "event", "--track", "32769"}, rest}, {[]string{"write", "event", "--track", "40000"}, rest}, {[]string{"write", "event", "--track", "65535"}, rest},
+		{[]string{"write", "--track", "32769"}, rest}, {[]string{"write", "--track", "65535"}, rest},
+		{[]string{"write", "parse"}, noDegree}, {[]string{"write", "conv", "-c", "cmt"}, noDegree}, {[]string{"write"}, noDegree}, {[]string{"write", "event"}, noDegree},
+		{[]string{"write", "parse"}, "- chord: {degree: ~, name: m7}\n  values: [1]\n"}, {[]string{"write", "conv", "-c", "cmt"}, "- chord: {}\n  values: [1]\n"}, {[]string{"write", "parse"}, "- chord: {degree: \"1\"}\n  values: [1]\n"},
+		{[]string{"write", "parse"}, "- chord: {degree: \"1\", name: m7, base: ~}\n  values: [1]\n"},
+		{[]string{"info", "attr", "describe", "-t", "Major3", "-r", "D♭"}, ""}, {[]string{"info", "attr", "describe", "-t", "Major3", "-r", "xF"}, ""}, {[]string{"info", "attr", "describe", "-t", "Major3", "-r", "C##"}, ""}, {[]string{"info", "attr", "describe", "-t", "Major3", "-r", ""}, ""},
+	}
+	c.Stream("edges", len(edges), func(i int, _ *rand.Rand) {
+		e := edges[i]
+		res := c.Crd.Run(runner.Opt{Stdin: []byte(e.stdin), CPUSec: 60}, e.args...)
+		if judgeOutcome(c, "edges", i, strings.Join(e.args, " "), res, map[string]any{"stdin": e.stdin}) {
+			c.Nontrivial("edge|" + strings.Join(e.args, " ") + "|" + e.stdin)
+		}
+	})
+
 	// ---------------- (3) nonsense catalogue
 	nonsenseCatalogue(c)
 }
